@@ -189,7 +189,7 @@ impl<VS: HSet> HProvider<VS> {
         let seed = if let Strat::Random(s) = strat { s } else { 0 };
         {
             // deep registries: every snapshot lists hundreds of packages; a runaway run must stay small
-            let budget = if reg.entries.len() > 100 { 6_000 } else { 3_000 };
+            let budget = if reg.entries.len() > 100 { 8_000 } else { 10_000 };
             HProvider { reg, dep_maps, strat, fault, log, calls: Cell::new(0), rng: RefCell::new(Rng::new(seed)), budget }
         }
     }
@@ -322,7 +322,40 @@ pub struct Run<VS: HSet> {
     pub outcome: Outcome<VS>,
 }
 
+/// the call of the real `resolve` in flight (start time, replayable request line): read by the watchdog
+pub static IN_FLIGHT: std::sync::Mutex<Option<(std::time::Instant, String)>> = std::sync::Mutex::new(None);
+
+/// Abort the process when one call of `resolve` has been running for `limit_s` seconds (a loop that
+/// makes no provider call cannot be stopped from inside): the request is written to `hang_file` so
+/// that the check can report it as the failing input, and the process exits with status 3.
+pub fn start_watchdog(limit_s: u64, hang_file: Option<String>) {
+    std::thread::spawn(move || loop {
+        std::thread::sleep(std::time::Duration::from_millis(500));
+        let cur = IN_FLIGHT.lock().unwrap().clone();
+        if let Some((t0, line)) = cur {
+            if t0.elapsed().as_secs() >= limit_s {
+                if let Some(f) = &hang_file {
+                    let _ = std::fs::write(f, format!("{}\n", line));
+                }
+                println!("hang:resolve did not return within {} s", limit_s);
+                eprintln!("ORACLE-FAIL {} :: resolve did not return within {} s (no provider call pending: the call budget was not reached)", line, limit_s);
+                std::process::exit(3);
+            }
+        }
+    });
+}
+
 pub fn run_resolve<VS: HSet>(reg: &Registry<VS>, root: &str, rv: u32, strat: &Strat, fault: &Fault) -> Run<VS> {
+    *IN_FLIGHT.lock().unwrap() = Some((
+        std::time::Instant::now(),
+        format!("solve|{}|{}|{}|{}|{}|{}|{}|", VS::KIND, if cfg!(debug_assertions) { "dbg" } else { "rel" }, root, rv, reg.to_text(), strat.to_text(), fault.to_text()),
+    ));
+    let r = run_resolve_inner(reg, root, rv, strat, fault);
+    *IN_FLIGHT.lock().unwrap() = None;
+    r
+}
+
+fn run_resolve_inner<VS: HSet>(reg: &Registry<VS>, root: &str, rv: u32, strat: &Strat, fault: &Fault) -> Run<VS> {
     let log: Rc<RefCell<Vec<Ev>>> = Rc::new(RefCell::new(vec![]));
     let provider = HProvider::new(reg.clone(), strat.clone(), fault.clone(), log.clone());
     let log2 = log.clone();
